@@ -113,29 +113,29 @@ def cover : List (String × List Cover) := [
   ("amgcl/mpi/partition/util.hpp|graph_perm_matrix|I_rem.ptr", [.poison "h_mpi_solve_poison"]),
   ("amgcl/mpi/relaxation/spai0.hpp|spai0::spai0|m", [.poison "h_mpi_solve_poison"]),
   ("amgcl/preconditioner/cpr.hpp|cpr::first_scalar_pass|App.col+val", [.poison "h_pipeline"]),
-  ("amgcl/preconditioner/cpr.hpp|cpr::first_scalar_pass|fpp.col+val", [.poison "h_pipeline"]),
-  ("amgcl/preconditioner/cpr.hpp|cpr::first_scalar_pass|fpp.ptr", [.poison "h_pipeline"]),
-  ("amgcl/preconditioner/cpr.hpp|cpr::init|App.col+val", [.poison "h_pipeline"]),
-  ("amgcl/preconditioner/cpr.hpp|cpr::init|fpp.col+val", [.poison "h_pipeline"]),
-  ("amgcl/preconditioner/cpr.hpp|cpr::init|fpp.ptr", [.poison "h_pipeline"]),
-  ("amgcl/preconditioner/cpr.hpp|cpr::init|scatter.col+val", [.poison "h_pipeline"]),
-  ("amgcl/preconditioner/cpr.hpp|cpr::init|scatter.col+val#2", [.poison "h_pipeline"]),
-  ("amgcl/preconditioner/cpr.hpp|cpr::init|scatter.ptr", [.poison "h_pipeline"]),
-  ("amgcl/preconditioner/cpr.hpp|cpr::init|scatter.ptr#2", [.poison "h_pipeline"]),
-  ("amgcl/preconditioner/cpr.hpp|cpr::update_transfer|fpp.col+val", [.poison "h_pipeline"]),
-  ("amgcl/preconditioner/cpr.hpp|cpr::update_transfer|fpp.ptr", [.poison "h_pipeline"]),
+  ("amgcl/preconditioner/cpr.hpp|cpr::first_scalar_pass|fpp.col+val", [.thm "Amgcl.C10e.cpr_fpp_defined", .poison "h_pipeline"]),
+  ("amgcl/preconditioner/cpr.hpp|cpr::first_scalar_pass|fpp.ptr", [.thm "Amgcl.C10e.cpr_fpp_defined", .poison "h_pipeline"]),
+  ("amgcl/preconditioner/cpr.hpp|cpr::init|App.col+val", [.thm "Amgcl.C10e.cpr_App_block_defined", .poison "h_pipeline"]),
+  ("amgcl/preconditioner/cpr.hpp|cpr::init|fpp.col+val", [.thm "Amgcl.C10e.cpr_fpp_defined", .poison "h_pipeline"]),
+  ("amgcl/preconditioner/cpr.hpp|cpr::init|fpp.ptr", [.thm "Amgcl.C10e.cpr_fpp_defined", .poison "h_pipeline"]),
+  ("amgcl/preconditioner/cpr.hpp|cpr::init|scatter.col+val", [.thm "Amgcl.C10e.cpr_scatter_defined", .poison "h_pipeline"]),
+  ("amgcl/preconditioner/cpr.hpp|cpr::init|scatter.col+val#2", [.thm "Amgcl.C10e.cpr_scatter_defined", .poison "h_pipeline"]),
+  ("amgcl/preconditioner/cpr.hpp|cpr::init|scatter.ptr", [.thm "Amgcl.C10e.cpr_scatter_defined", .poison "h_pipeline"]),
+  ("amgcl/preconditioner/cpr.hpp|cpr::init|scatter.ptr#2", [.thm "Amgcl.C10e.cpr_scatter_defined", .poison "h_pipeline"]),
+  ("amgcl/preconditioner/cpr.hpp|cpr::update_transfer|fpp.col+val", [.thm "Amgcl.C10e.cpr_fpp_defined", .poison "h_pipeline"]),
+  ("amgcl/preconditioner/cpr.hpp|cpr::update_transfer|fpp.ptr", [.thm "Amgcl.C10e.cpr_fpp_defined", .poison "h_pipeline"]),
   ("amgcl/preconditioner/cpr_drs.hpp|cpr_drs::first_scalar_pass|App.col+val", [.poison "h_pipeline"]),
-  ("amgcl/preconditioner/cpr_drs.hpp|cpr_drs::first_scalar_pass|fpp.col+val", [.poison "h_pipeline"]),
-  ("amgcl/preconditioner/cpr_drs.hpp|cpr_drs::first_scalar_pass|fpp.ptr", [.poison "h_pipeline"]),
-  ("amgcl/preconditioner/cpr_drs.hpp|cpr_drs::init|App.col+val", [.poison "h_pipeline"]),
-  ("amgcl/preconditioner/cpr_drs.hpp|cpr_drs::init|fpp.col+val", [.poison "h_pipeline"]),
-  ("amgcl/preconditioner/cpr_drs.hpp|cpr_drs::init|fpp.ptr", [.poison "h_pipeline"]),
-  ("amgcl/preconditioner/cpr_drs.hpp|cpr_drs::init|scatter.col+val", [.poison "h_pipeline"]),
-  ("amgcl/preconditioner/cpr_drs.hpp|cpr_drs::init|scatter.col+val#2", [.poison "h_pipeline"]),
-  ("amgcl/preconditioner/cpr_drs.hpp|cpr_drs::init|scatter.ptr", [.poison "h_pipeline"]),
-  ("amgcl/preconditioner/cpr_drs.hpp|cpr_drs::init|scatter.ptr#2", [.poison "h_pipeline"]),
-  ("amgcl/preconditioner/cpr_drs.hpp|cpr_drs::update_transfer|fpp.col+val", [.poison "h_pipeline"]),
-  ("amgcl/preconditioner/cpr_drs.hpp|cpr_drs::update_transfer|fpp.ptr", [.poison "h_pipeline"]),
+  ("amgcl/preconditioner/cpr_drs.hpp|cpr_drs::first_scalar_pass|fpp.col+val", [.thm "Amgcl.C10e.cpr_drs_fpp_defined", .poison "h_pipeline"]),
+  ("amgcl/preconditioner/cpr_drs.hpp|cpr_drs::first_scalar_pass|fpp.ptr", [.thm "Amgcl.C10e.cpr_drs_fpp_defined", .poison "h_pipeline"]),
+  ("amgcl/preconditioner/cpr_drs.hpp|cpr_drs::init|App.col+val", [.thm "Amgcl.C10e.cpr_App_block_defined", .poison "h_pipeline"]),
+  ("amgcl/preconditioner/cpr_drs.hpp|cpr_drs::init|fpp.col+val", [.thm "Amgcl.C10e.cpr_drs_fpp_defined", .poison "h_pipeline"]),
+  ("amgcl/preconditioner/cpr_drs.hpp|cpr_drs::init|fpp.ptr", [.thm "Amgcl.C10e.cpr_drs_fpp_defined", .poison "h_pipeline"]),
+  ("amgcl/preconditioner/cpr_drs.hpp|cpr_drs::init|scatter.col+val", [.thm "Amgcl.C10e.cpr_scatter_defined", .poison "h_pipeline"]),
+  ("amgcl/preconditioner/cpr_drs.hpp|cpr_drs::init|scatter.col+val#2", [.thm "Amgcl.C10e.cpr_scatter_defined", .poison "h_pipeline"]),
+  ("amgcl/preconditioner/cpr_drs.hpp|cpr_drs::init|scatter.ptr", [.thm "Amgcl.C10e.cpr_scatter_defined", .poison "h_pipeline"]),
+  ("amgcl/preconditioner/cpr_drs.hpp|cpr_drs::init|scatter.ptr#2", [.thm "Amgcl.C10e.cpr_scatter_defined", .poison "h_pipeline"]),
+  ("amgcl/preconditioner/cpr_drs.hpp|cpr_drs::update_transfer|fpp.col+val", [.thm "Amgcl.C10e.cpr_drs_fpp_defined", .poison "h_pipeline"]),
+  ("amgcl/preconditioner/cpr_drs.hpp|cpr_drs::update_transfer|fpp.ptr", [.thm "Amgcl.C10e.cpr_drs_fpp_defined", .poison "h_pipeline"]),
   ("amgcl/preconditioner/schur_pressure_correction.hpp|schur_pressure_correction::init|Kpp.col+val", [.poison "h_pipeline"]),
   ("amgcl/preconditioner/schur_pressure_correction.hpp|schur_pressure_correction::init|Kpu.col+val", [.poison "h_pipeline"]),
   ("amgcl/preconditioner/schur_pressure_correction.hpp|schur_pressure_correction::init|Kup.col+val", [.poison "h_pipeline"]),
